@@ -28,7 +28,7 @@ theorem ovIn_eq : ovIn o td = { td with inp := if o.inp ≠ [] then o.inp else t
 theorem ovExt_eq : ovExt o td = { td with ext := if o.ext ≠ [] then o.ext else td.ext } := by unfold ovExt; split <;> rfl
 theorem ovDesc_eq : ovDesc o td = { td with desc := if o.desc ≠ [] then o.desc else td.desc } := by unfold ovDesc; split <;> rfl
 theorem ovRender_eq : ovRender o td = { td with render := if o.render ≠ [] then o.render else td.render } := by unfold ovRender; split <;> rfl
-theorem ovRotate_eq : ovRotate o td = { td with rotate := if o.rotate ≠ [48] then o.rotate else td.rotate } := by unfold ovRotate; split <;> rfl
+theorem ovRotate_eq : ovRotate o td = { td with rotate := if rotIsZero o.rotate then td.rotate else o.rotate } := by unfold ovRotate; split <;> rfl
 theorem ovDisp_eq : ovDisp o td = { td with disp := match o.disp with | some d => some d | none => td.disp } := by
   unfold ovDisp; cases o.disp <;> rfl
 theorem ovSub_eq : ovSub o td = { td with sub := match o.sub with | [] => td.sub | s => s } := by
